@@ -237,6 +237,9 @@ class Parser:
                 self.opt(",")
             self.eat(")")
             return "()" if not parts else f"tuple<{','.join(parts)}>"
+        if self.peek()[1] == "impl" and self.peek(1)[0] == "id":
+            self.i += 1                # `impl Trait<..>` in argument position: an opaque type
+            return "impl:" + self.type_()
         name = self.ident()
         while self.opt("::"):
             name = self.ident()
@@ -702,6 +705,8 @@ class Gen:
             return "Nat"     # an account / contract: an opaque identifier (a muxed address: its account)
         if ty == "Bytes32":
             return "B32"
+        if ty == "Bytes":
+            return "(List Nat)"   # a byte string: the list of its bytes
         if ty.startswith("Vec<"):
             return f"(List {self.lean_ty(ty[4:-1])})"
         if ty.startswith("BytesN<"):
@@ -948,10 +953,66 @@ class Gen:
             l, t = self.pure(e[1], env)
             if t.startswith("Option<"):
                 return (f"(Option.{'isSome' if e[2] == 'is_some' else 'isNone'} {l})", "bool")
+        rd_ = getattr(self, "reads", {})
+        if e == ("mcall", ("mcall", ("var", "e"), "ledger", []), "network_id", []) and "network_id" in rd_:
+            self.uses_reads = True
+            return ("envr.network_id", "Bytes")
+        if e == ("mcall", ("mcall", ("var", "e"), "ledger", []), "timestamp", []) and "ledger_timestamp" in rd_:
+            self.uses_reads = True
+            return ("envr.ledger_timestamp", rd_["ledger_timestamp"])
+        if e == ("mcall", ("var", "e"), "current_contract_address", []) and "current_contract_address" in rd_:
+            self.uses_reads = True
+            return ("envr.current_contract_address", "Address")
+        if e[0] == "mcall" and e[2] == "to_array" and not e[3]:
+            l, t = self.pure(e[1], env)
+            if t in ("Bytes", "Bytes32"):
+                return (l, t)       # the bytes as an array: the same byte string
+        if e[0] == "call" and e[1] == ("path", ["Bytes", "from_array"]) and len(e[2]) == 2 and self.is_handle(e[2][0], env):
+            l, t = self.pure(e[2][1], env)
+            if t in ("Bytes", "Bytes32"):
+                return (l, "Bytes")
+            raise Unsupported("Bytes::from_array of " + t)
+        if e[0] == "mcall" and e[2] == "to_xdr" and len(e[3]) == 1 and self.is_handle(e[3][0], env) and "to_xdr" in rd_:
+            l, t = self.pure(e[1], env)
+            if t != "Address":
+                raise Unsupported("to_xdr of " + t)
+            self.uses_reads = True
+            return (f"(envr.to_xdr {l})", "Bytes")
+        if e[0] == "mcall" and e[2] == "to_be_bytes" and not e[3]:
+            l, t = self.pure(e[1], env)
+            if t != "u32":
+                raise Unsupported("to_be_bytes of " + t)
+            return (f"(u32_to_be_bytes {l})", "Bytes")
+        if e[0] == "mcall" and e[2] == "to_bytes" and not e[3] and "keccak256" in rd_:
+            r_ = self.strip(e[1])
+            if r_[0] == "mcall" and r_[2] == "keccak256" and len(r_[3]) == 1 and self.strip(r_[1]) == ("mcall", ("var", "e"), "crypto", []):
+                l, t = self.pure(r_[3][0], env)
+                if t != "Bytes":
+                    raise Unsupported("keccak256 of " + t)
+                self.uses_reads = True
+                return (f"(envr.keccak256 {l})", "Bytes32")
+        if e[0] == "mcall" and e[2] in ("unwrap_or", "unwrap_or_default") and len(e[3]) == (1 if e[2] == "unwrap_or" else 0):
+            r_ = self.strip(e[1])
+            if r_[0] == "mcall" and r_[2] == "inspect":
+                il, it = self.pure(r_, env)
+                if it.startswith("Option<"):
+                    vt_ = it[7:-1]
+                    if e[2] == "unwrap_or":
+                        d, dt = self.pure(e[3][0], env)
+                        d = as_nat(d, dt) if vt_ in NATTY else d
+                    elif vt_ == "bool":
+                        d = "false"
+                    elif vt_ in NATTY:
+                        d = "(0 : Nat)"
+                    else:
+                        raise Unsupported("unwrap_or_default of " + it)
+                    return (f"(Option.getD {il} {d})", vt_)
         if e[0] == "mcall" and e[2] == "unwrap_or" and len(e[3]) == 1:
             inner = self.storage_get(self.strip(e[1]), env)
             if inner is not None:
                 d, dt = self.pure(e[3][0], env)
+                if inner[1][7:-1] in NATTY:
+                    d = as_nat(d, dt)
                 return (f"(Option.getD {inner[0]} {d})", inner[1][7:-1])
         if e == ("mcall", ("mcall", ("var", "e"), "ledger", []), "sequence", []) and "ledger_sequence" in getattr(self, "reads", {}):
             self.uses_reads = True
@@ -1076,6 +1137,9 @@ class Gen:
             f, ret = self.PURE_M[(rt, name)]
             al = [self.pure(a, env)[0] for a in args]
             return (f"({f} {rl} {' '.join(al)})", ret)
+        if rt in NATTY and name == "checked_add" and len(args) == 1:
+            al, at_ = self.pure(args[0], env)
+            return (f"(uN_checked_add {BITS[rt]} {rl} {as_nat(al, at_)})", f"Option<{rt}>")
         if rt in NATTY and name in ("saturating_add", "saturating_sub") and len(args) == 1:
             bits = BITS[rt]
             al, at_ = self.pure(args[0], env)
@@ -1130,6 +1194,16 @@ class Gen:
             pure_err = ex
         if got is not None:
             return k(got[0], got[1])
+        if e[0] == "mcall" and e[2] == "to_bytes" and not e[3] and "keccak256" in getattr(self, "reads", {}):
+            r_ = self.strip(e[1])
+            if r_[0] == "mcall" and r_[2] == "keccak256" and len(r_[3]) == 1 and self.strip(r_[1]) == ("mcall", ("var", "e"), "crypto", []):
+                # the hashed bytes are computed (a call of a translated function): evaluate them, then hash
+                def kh(a, t):
+                    if t != "Bytes":
+                        raise Unsupported("keccak256 of " + t)
+                    self.uses_reads = True
+                    return k(f"(envr.keccak256 {a})", "Bytes32")
+                return self.tr(r_[3][0], env, kh, ret)
         kind = e[0]
         if kind == "bin" and e[1] in ("==", "!=", "<", ">", "<=", ">=", "&&", "||"):
             try:
@@ -1562,6 +1636,17 @@ class Gen:
                         elt = vt_[4:-1]
                         return go(i + 1, dict(env, **{vn: (f"({old} ++ [{as_nat(a, t) if elt in NATTY else a}])", vt_)}))
                     return self.tr(e[3][0], env, kpb, ret)
+            if s[0] == "expr":
+                e = self.strip(s[1])
+                if e[0] == "mcall" and e[2] in ("append", "extend_from_array") and len(e[3]) == 1 and self.strip(e[1])[0] == "var" \
+                        and env.get(self.strip(e[1])[1], ("", ""))[1] == "Bytes":
+                    vn = self.strip(e[1])[1]
+                    old, _ = env[vn]
+                    def kap(a, t):
+                        if t not in ("Bytes", "Bytes32"):
+                            raise Unsupported(f"{e[2]} of {t}")
+                        return go(i + 1, dict(env, **{vn: (f"({old} ++ {a})", "Bytes")}))
+                    return self.tr(e[3][0], env, kap, ret)
             if s[0] == "expr" and getattr(self, "store", None):
                 e = self.strip(s[1])
                 if e[0] == "mcall" and self.is_storage(e[1]):
@@ -1982,6 +2067,13 @@ FILES_FT = [("FungibleT", "packages/tokens/src/fungible/storage.rs", ["allowance
 STORE_CTI = {"Topics": {"ClaimTopics": ([], "Vec<u32>"), "ClaimTopicIssuers": (["u32"], "Vec<Address>")}}
 FILES_CTI = [("Topics", "packages/tokens/src/rwa/claim_topics_and_issuers/mod.rs", []),
              ("Topics", "packages/tokens/src/rwa/claim_topics_and_issuers/storage.rs", ["get_claim_topics", "add_claim_topic"])]
+STORE_ISS = {"Issuer": {"ClaimNonce": (["Address", "u32"], "u32"), "RevokedClaim": (["Bytes32"], "bool")}}
+READS_ISS = {"Issuer": {"network_id": "Bytes", "current_contract_address": "Address", "ledger_timestamp": "u64",
+                        "to_xdr": ("purefn", ["Address"], "Bytes"), "keccak256": ("purefn", ["Bytes"], "Bytes32"),
+                        "decode_claim_data_expiration": ("purefn", ["Bytes"], "tuple<u64,u64,Bytes>")}}
+FILES_ISS = [("Issuer", "packages/tokens/src/rwa/claim_issuer/storage.rs",
+              ["get_current_nonce_for", "invalidate_claim_signatures", "build_claim_identifier", "build_claim_message",
+               "set_claim_revoked", "is_claim_revoked", "is_claim_expired"])]
 STORE_RT = {"RoleTransfer": {"Pending": ([], "Address", "temp"), "Active": ([], "Address")}}
 READS_RT = {"RoleTransfer": {"ledger_sequence": "u32", "min_temp_ttl": "u32", "max_ttl": "u32", "authorized": "addr2bool"}}
 FILES_RT = [("RoleTransfer", "packages/access/src/role_transfer/storage.rs", ["transfer_role", "accept_transfer"])]
@@ -2538,6 +2630,8 @@ def main():
             txt = translate(repo, FILES_FT, imports=("OZ.Model.RustSemHost",), reads=READS_FT, structs=STRUCTS_FUNGIBLE, store=STORE_FT,
                             impl_types={"Base": "FungibleT"},
                             rename_types={"AllowanceData": "FungibleT.AllowanceData", "AllowanceKey": "FungibleT.AllowanceKey"})
+        elif "--issuer" in sys.argv:
+            txt = translate(repo, FILES_ISS, reads=READS_ISS, store=STORE_ISS)
         elif "--topics" in sys.argv:
             txt = translate(repo, FILES_CTI, reads={"Topics": {}}, store=STORE_CTI)
         elif "--role-transfer" in sys.argv:
